@@ -63,8 +63,8 @@ Print Assumptions C13_undelivered_event_is_reportable.
     invariant is false, the subscription is neither reportable nor would its
     report carry the attribute. *)
 Theorem C13_unfixed_purge_refuted :
-  exists ops, inv_b (run_gen false true init ops) = false /\ inv_b (run init ops) = true /\
-    let st := run_gen false true init ops in
+  exists ops, inv_b (run_gen false true true init ops) = false /\ inv_b (run init ops) = true /\
+    let st := run_gen false true true init ops in
     existsb (fun s => stale (log st) (s_del s) f7_path && negb (unprimed s) &&
                       negb (is_reportable s 20000 (tab st) (evn st)) &&
                       negb (contains_since (tab st) f7_path (s_seen s))) (subs st) = true.
@@ -151,7 +151,7 @@ Print Assumptions C13_cancelled_report_is_dropped.
     on the eight-operation witness (corpus c5) the removed subscription 1 stays and the new,
     acknowledged subscription 2 is gone; after the repair it is the other way round. *)
 Theorem C13_slot_before_fix :
-  ids_in_table (run_gen true false init slot_witness) = [1] /\ ids_in_table (run init slot_witness) = [2].
+  ids_in_table (run_gen true false true init slot_witness) = [1] /\ ids_in_table (run init slot_witness) = [2].
 Proof. exact (conj slot_before_fix slot_after_fix). Qed.
 Print Assumptions C13_slot_before_fix.
 
@@ -183,6 +183,35 @@ Theorem C13_event_eviction_witness :
   evicted_undelivered q 0 1 = true /\ report_events q 0 7 = [4; 5; 6; 7].
 Proof. exact evicted_inhabited. Qed.
 Print Assumptions C13_event_eviction_witness.
+
+(** The liveness reference: with the repaired code an empty report that is skipped (not sent) does not
+    move [reported_at]; it always is the [now] of the last report that was sent ([s_since], ghost) ... *)
+Theorem C13_reported_at_is_last_sent : forall ops s,
+  Forall op_time_ok ops -> In s (subs (run init ops)) -> unprimed s = false -> s_rep_at s = s_since s.
+Proof. exact reported_at_is_last_sent. Qed.
+Print Assumptions C13_reported_at_is_last_sent.
+
+(** ... so the reporter's deadline lies within one maximum interval of the last report SENT, and the
+    subscription is reportable (the liveness report goes out even if empty) at it. *)
+Theorem C13_liveness_from_last_sent : forall ops s tb evw,
+  Forall op_time_ok ops -> In s (subs (run init ops)) ->
+  unprimed s = false -> s_min s <= s_max s ->
+  s_retry_at s <= s_since s + s_max s * 1000 -> s_since s + s_max s * 1000 <= IMAX ->
+  next_report_at s tb evw <= s_since s + s_max s * 1000 /\
+  is_reportable s (next_report_at s tb evw) tb evw = true.
+Proof. exact liveness_from_last_sent. Qed.
+Print Assumptions C13_liveness_from_last_sent.
+
+(** Before that repair: changes of an attribute the subscriber did not subscribe to, every 20 s (maximum
+    interval 60 s): four empty reports are skipped, each moves [reported_at]; after 80 s nothing was sent
+    and the liveness point lies beyond last-sent + max.  After the repair the same run sends its liveness report. *)
+Theorem C13_unsent_before_fix :
+  existsb (fun s => (s_since s =? 0) && (s_rep_at s =? 80000) && (s_since s + s_max s * 1000 <? report_due_at s))
+          (subs (run_gen true true false init unsent_witness)) = true /\
+  forallb (fun s => (s_rep_at s =? s_since s) && (report_due_at s <=? s_since s + s_max s * 1000))
+          (subs (run init unsent_witness)) = true.
+Proof. exact (conj unsent_before_fix (proj1 unsent_after_fix)). Qed.
+Print Assumptions C13_unsent_before_fix.
 
 (** * Non-vacuity *)
 
